@@ -206,7 +206,12 @@ def run_into(chk, tier, seed):
     payloads = ["227 ok (1,2,3,4,5,6)", "227 (1,2,3,4,5)", "227 ()", "227 no parens", "227 (a,b,c,d,e,f)", "227 (999,1,1,1,999,999)", "227 ((1,2,3,4,5,6))",
                 "229 (|||80|)", "229 (||||)", "229 (|||x|)", "229 nothing", "229 (!!!99999999999999999999!)", "229 (|||80|) (|||81|)", "229 (|1|1.2.3.4|80|)",
                 '257 "/a"', '257 "', "257 none", '257 """"', '257 "/a""b" x', "257", ""]
-    for p in payloads + ["%s%s" % (p, "\x00é") for p in payloads]:
+    # long runs and broken group ends (what makes a backtracking pattern explode), nesting, repetition
+    runs = ["9" * n for n in (24, 48, 200)] + ["1," * n for n in (12, 40)] + ["(" * 30, ")" * 30, "(1,2" * 20, "|" * 60, "|||1" * 20, '"' * 61, '""' * 30 + "x"]
+    for r in runs:
+        payloads += ["227 ok (127,0,0,1,19," + r, "227 ok (" + r, "227 (" + r + ")", "227 " + r, "229 ok (|||" + r, "229 (|||" + r + "|", "229 (|||" + r + "|)",
+                     "229 " + r, '257 "' + r, '257 "/a' + r + '" x', "257 " + r]
+    for p in payloads + ["%s%s" % (p, "\x00é") for p in payloads[:21]]:
         for name, fn, typed in (("parse_pasv_response", aioftp.Client.parse_pasv_response, lambda r: isinstance(r, tuple) and isinstance(r[1], int)),
                                 ("parse_epsv_response", aioftp.Client.parse_epsv_response, lambda r: isinstance(r, tuple) and isinstance(r[1], int)),
                                 ("parse_directory_response", aioftp.Client.parse_directory_response, lambda r: isinstance(r, pathlib.PurePosixPath))):
